@@ -403,8 +403,8 @@ def attribute_pages(ntexts, nconfs, nheights, ncoords, region_attrs):
     return pages
 
 
-def structure_pages(region_ids, max_idx, lines_of):
-    """every sequence of distinct regions from region_ids x (no reading order | every partial map region id -> 0..max_idx
+def structure_pages(region_ids, ro_values, lines_of):
+    """every sequence of distinct regions from region_ids x (no reading order | every partial map region id -> ro_values (sparse indices included)
     in every dictionary order of at most ... ) ; region r carries lines_of[r] lines"""
     pages = []
     ids = list(region_ids)
@@ -412,14 +412,14 @@ def structure_pages(region_ids, max_idx, lines_of):
     ros = [None]
     for n in range(len(ids) + 1):
         for keys in itertools.combinations(ids, n):
-            for vals in itertools.product(range(max_idx + 1), repeat=n):
+            for vals in itertools.product(list(ro_values), repeat=n):
                 ros.append(list(zip(keys, vals)))
                 if n >= 2:
                     ros.append(list(zip(keys, vals))[::-1])     # dictionary order differs from region order
     for seq, ro in itertools.product(seqs, ros):
         regs = []
         for rid in seq:
-            lines = [mk_line("%s-l%d" % (rid, j), idx=(None if j == 0 else 3 - j), hts=(None if j == 1 else (160, 40)),
+            lines = [mk_line("%s-l%d" % (rid, j), idx=(None if j == 0 else 2 * (j - 1)), hts=(None if j == 1 else (160, 40)),
                              text=(None if j == 1 else 1), conf=None) for j in range(lines_of.get(rid, 0))]
             regs.append(mk_region(rid, lines))
         pages.append(mk_page(regs, ro=ro))
